@@ -27,6 +27,7 @@ import (
 	"github.com/indexsupply/shovel/jrpc2"
 	"github.com/indexsupply/shovel/shovel"
 	"github.com/indexsupply/shovel/shovel/config"
+	"github.com/indexsupply/shovel/shovel/web"
 	"github.com/indexsupply/shovel/verifhook"
 	"github.com/indexsupply/shovel/wctx"
 	"github.com/jackc/pgx/v5/pgxpool"
@@ -174,6 +175,13 @@ type World struct {
 	okOutcomes  int
 	scriptFired map[int]bool
 	c08         *c08State
+	c20         *c20State
+	mgr         *shovel.Manager
+	web         *web.Handler
+	setupPool   *pgxpool.Pool
+	c20SaveConf config.Root
+	c20Verdicts []error
+	c20Progress map[string]int64
 	pendingJump time.Duration
 	outcomeQ    []outcomeRec
 	onHookEvent func(name string, kv ...any)
